@@ -688,6 +688,9 @@ bool XMLReader::getName(XMLBuffer& toFill, const bool token)
                     return false;
                 // reset the start buffer to the new location of the cursor
                 charIndex_start = fCharIndex;
+                // the refill may have delivered nothing beyond the spare lead surrogate
+                if (fCharIndex+1 >= fCharsAvail)
+                    return false;
             }
             if ((fCharBuf[fCharIndex+1] < 0xDC00) || (fCharBuf[fCharIndex+1] > 0xDFFF))
                 return false;
@@ -729,6 +732,10 @@ bool XMLReader::getName(XMLBuffer& toFill, const bool token)
                         break;
 
                     charIndex_start = fCharIndex;
+
+                    // the refill may have delivered nothing beyond the spare lead surrogate
+                    if (fCharIndex+1 >= fCharsAvail)
+                        break;
                 }
                 if ( (fCharBuf[fCharIndex+1] < 0xDC00) ||
                         (fCharBuf[fCharIndex+1] > 0xDFFF)  )
@@ -780,6 +787,9 @@ bool XMLReader::getNCName(XMLBuffer& toFill)
                 return false;
             // reset the start buffer to the new location of the cursor
             charIndex_start = fCharIndex;
+            // the refill may have delivered nothing beyond the spare lead surrogate
+            if (fCharIndex+1 >= fCharsAvail)
+                return false;
         }
         if ((fCharBuf[fCharIndex+1] < 0xDC00) || (fCharBuf[fCharIndex+1] > 0xDFFF))
             return false;
@@ -831,6 +841,10 @@ bool XMLReader::getNCName(XMLBuffer& toFill)
                         break;
 
                     charIndex_start = fCharIndex;
+
+                    // the refill may have delivered nothing beyond the spare lead surrogate
+                    if (fCharIndex+1 >= fCharsAvail)
+                        break;
                 }
                 if ( (fCharBuf[fCharIndex+1] < 0xDC00) ||
                     (fCharBuf[fCharIndex+1] > 0xDFFF)  )
